@@ -9,7 +9,7 @@ PROP = dict(
                 "is empty after the last handle is gone; second and third legs use the built-in managed types (metatype references with a "
                 "counting harness metatype, arrays of arrays).  Exploration, not proof."),
     level_note="trusts the live-set monitor in harness/c05_*.c/.cpp, gcc ASan/UBSan/LSan; content after reserve and after operations with injected constructor failure is adopted (liveness/conservation still asserted)",
-    legs=[dict(name="c05_elems", src=["c05_elems.c"], libs=["mptcore"], batch=512, lsan=True,
+    legs=[dict(name="c05_elems", memcheck=1500, src=["c05_elems.c"], libs=["mptcore"], batch=512, lsan=True,
                floors={"array_set": 5000, "buffer_set": 5000, "array_insert": 5000, "buffer_cut": 5000, "array_slice": 5000,
                        "array_reserve": 5000, "state:shared": 20000, "monitor:init-failures-injected": 2000,
                        "monitor:fini-calls": 100000, "monitor:conservation-checks": 100000,
